@@ -142,3 +142,6 @@ func VerifServerConfig(a VerifServerArgs, tmuxMode int, paneWidth int32, actLine
 	js, _ := json.Marshal(&t.transferConfig)
 	return append([]byte(nil), w.buf.Bytes()...), string(js), errText
 }
+
+// VerifRelayTunnelConnected reads the relay's tunnelConnected flag.
+func VerifRelayTunnelConnected(r *TrzszRelay) bool { return r.tunnelConnected.Load() }
